@@ -228,6 +228,11 @@ async def run_worker(loop, sc: dict, make=None, projector=inmem_projector, signa
                     return None
                 raise AssertionError(what)
             finally:
+                if job.get("cleanup_ms"):      # a body whose clean-up (finally / context managers) takes time
+                    try:
+                        await asyncio.sleep(job["cleanup_ms"] / 1000)
+                    except asyncio.CancelledError:
+                        pass
                 rec.in_body[i] -= 1
                 rec.emit({"e": "be", "i": i})
 
@@ -305,6 +310,11 @@ async def run_worker(loop, sc: dict, make=None, projector=inmem_projector, signa
             rec.emit({"e": "xs", "i": i})
             try:
                 res = await orig_actor_run(actor, key, parameters, payload, connection)
+            except Exception:
+                # actor_run turns every failure of the actor (conversion, dependencies, body, timeout) into a failed
+                # result; an Exception that escapes it leaves the delivery without a disposition
+                rec.emit({"e": "xe", "i": i, "out": "crash"})
+                raise
             except BaseException:
                 rec.emit({"e": "xe", "i": i, "out": "killed"})
                 raise
